@@ -6,21 +6,21 @@
 From Boltons Require Import Lib.Prelude Lib.C11_Iface Spec.C11_Spec Model.C11_Model Gen.C11_Gen Check.C11_Check
      Proofs.C11_Inv Proofs.C11_Refine Proofs.C11_Main.
 
-Lemma walk_bits dg : forall steps s, Inv s ->
-  fst (walk dg s (m_live s) steps) = snd (walk dg s (m_live s) steps).
+Lemma walk_bits cf dg : forall steps s, Inv s ->
+  fst (walk cf dg s (m_live s) steps) = snd (walk cf dg s (m_live s) steps).
 Proof.
   induction steps as [|[o ob] r IH]; intros s H; [reflexivity|].
   cbn [walk]. destruct (valid_op (m_live s) o) eqn:V; [|reflexivity].
-  destruct (step_refines gen_cfg s o H V) as (A & B & C).
-  destruct (m_step gen_cfg s o) as [s' x]. destruct (spec_step (m_live s) o) as [l' y].
+  destruct (step_refines cf s o H V) as (A & B & C).
+  destruct (m_step cf s o) as [s' x]. destruct (spec_step (m_live s) o) as [l' y].
   cbn [fst snd] in *. subst l' y. specialize (IH s' A).
-  destruct (walk dg s' (m_live s') r) as [a h]. cbn [fst snd] in *. subst h.
+  destruct (walk cf dg s' (m_live s') r) as [a h]. cbn [fst snd] in *. subst h.
   rewrite (obs_ok dg s' x (proj1 A)). reflexivity.
 Qed.
 
 Theorem verdict_bits c : fst (fst (c11_verdict c)) = snd (fst (c11_verdict c)).
 Proof.
-  unfold c11_verdict. pose proof (walk_bits (c_digests c) (c_steps c) m_empty Inv_empty) as W.
+  unfold c11_verdict. pose proof (walk_bits (case_cfg c) (c_digests c) (c_steps c) m_empty Inv_empty) as W.
   change (m_live m_empty) with (@nil K) in W.
-  destruct (walk (c_digests c) m_empty [] (c_steps c)) as [a h]. exact W.
+  destruct (walk (case_cfg c) (c_digests c) m_empty [] (c_steps c)) as [a h]. exact W.
 Qed.
